@@ -82,7 +82,7 @@ def gaussian_copula_table(spec, shift=None):
     it = 0
     for j in range(d):
         if j in consts:
-            cols.append(np.full(n, 7.5 if j % 2 else -3.0))
+            cols.append(np.full(n, 0.1 if j % 2 else -3.3))      # non-dyadic constants (the mean of n copies need not be exact)
             continue
         kind, dist = margs[it]
         u = U[:, it]
